@@ -80,3 +80,15 @@ Example C15_matcher_example :
   let '(v', es) := apply_matchers [MAny [B "user.name"%string; B "missing"%string] ANY true; MAny [B "time"%string] ANY true] exv in
   es = [err 0 "missing"%string RMissing] /\ get v' [k_user; k_name] = Some (JStr (B "n"%string)) /\ get v' [k_time] = Some ANY.
 Proof. exact ex_discard_rule. Qed.
+
+(* non-vacuity: every theorem of this file that has hypotheses has a concrete, non-trivial instance meeting ALL of them
+   (lemmas <Theorem>_witness / <Theorem>_applied in Proofs/WitnessesP.v); a representative one is restated here *)
+From Snaps Require Import Proofs.WitnessesP.
+Example C15_witnesses :
+  Json.set w15_v w15_p w15_x = Some w15_v' /\ JsonSpec.disjoint_paths w15_p w15_q = true /\
+  wf_json w15_v /\ wf_json w15_x /\
+  (forall p, In p (all_paths w15_ms) -> pdisj p w15_q = true) /\
+  path_comps w15_ptext = Some w15_comps /\ Json.get w15_v (steps_of w15_v w15_comps) <> None /\
+  path_comps w15_anc = Some w15_c1 /\ w15_comps = app w15_c1 w15_c2 /\ w15_c2 <> nil /\ is_scalar w15_x = true /\
+  Json.get w15_v (steps_of w15_v w15_c1) <> None.
+Proof. exact C15_witnesses_all. Qed.
